@@ -550,8 +550,13 @@ func randOps(r *rand.Rand, roots []rootDesc, nforeign, n int) ([]opDesc, int) {
 		cells[i] = info{0, d.Kind != "base"}
 	}
 	var ops []opDesc
+	spine := -1 // the value a run of Convert steps is currently growing from
 	for len(ops) < n {
 		ri := r.IntN(len(cells))
+		deep := false
+		if spine >= 0 && cells[spine].depth < 6 && r.IntN(3) > 0 {
+			ri, deep = spine, true // keep converting the same value: siblings that share a long prefix
+		}
 		if cells[ri].depth >= 6 {
 			continue
 		}
@@ -565,14 +570,14 @@ func randOps(r *rand.Rand, roots []rootDesc, nforeign, n int) ([]opDesc, int) {
 			recv = ref{"emb", ri}
 		}
 		m := methodNames[r.IntN(len(methodNames))]
-		if r.IntN(3) == 0 {
+		if r.IntN(3) == 0 || deep {
 			m = pick(r, []string{"Convert", "ConvertS"})
 		}
 		o := opDesc{Recv: recv, M: m, Src: pick(r, words), DTag: pick(r, words), Fmt: pick(r, words), Err: ref{"nil", 0}}
 		alloc := true
 		if m == "Convert" || m == "ConvertS" {
 			switch x := r.IntN(10); {
-			case x < 7:
+			case x < 7 || deep:
 				o.Err = ref{"foreign", r.IntN(nforeign)}
 			case x < 9:
 				ci := r.IntN(len(cells))
@@ -586,6 +591,9 @@ func randOps(r *rand.Rand, roots []rootDesc, nforeign, n int) ([]opDesc, int) {
 		ops = append(ops, o)
 		if alloc {
 			cells = append(cells, info{cells[ri].depth + 1, cells[ri].ext && !viaEmb})
+			if (m == "Convert" || m == "ConvertS") && o.Err.K == "foreign" && r.IntN(2) == 0 {
+				spine = len(cells) - 1 // mostly move on to the result, sometimes branch again from the same value
+			}
 		}
 	}
 	return ops, len(cells)
@@ -638,7 +646,7 @@ func corpus(out *gal.Out) {
 func main() {
 	seed := flag.Uint64("seed", 1, "PRNG seed")
 	prefix := flag.String("out", "c06", "output prefix")
-	mode := flag.String("mode", "random", "corpus|random|sweep|replay")
+	mode := flag.String("mode", "random", "corpus|random|sweep|fan|replay")
 	n := flag.Int("n", 100, "number of cases")
 	in := flag.String("in", "", "replay: JSON file with a list of {roots, foreign, ops}")
 	flag.Parse()
@@ -668,6 +676,37 @@ func main() {
 					}
 					emit(out, "sweep", roots, fs, []opDesc{o1, o2})
 				}
+			}
+		}
+	case "fan":
+		// trees, not chains: a prefix of k Convert steps (k = 0..7) on one value, then SEVERAL
+		// successors derived from the same intermediate value, each converting a different error,
+		// then successors of those; every value is probed after all steps (the matrix)
+		fs := []foreignDesc{}
+		for i := 0; i < 14; i++ {
+			fs = append(fs, foreignDesc{Kind: "new", Text: "e" + strconv.Itoa(i)})
+		}
+		fs = append(fs, foreignDesc{Kind: "slice", Text: "s"}, foreignDesc{Kind: "val", Text: "v"})
+		kinds := []rootDesc{{Kind: "base", Name: "F", IsFac: true}, {Kind: "exta", Name: "X", IsFac: true},
+			{Kind: "base", Name: "B"}, {Kind: "extb", Name: "Y", IsFac: true}}
+		for ki := 0; ki < *n && ki < len(kinds); ki++ {
+			for k := 0; k <= 7; k++ {
+				roots := []rootDesc{kinds[ki], {Kind: "base", Name: "Other", IsFac: true}}
+				var ops []opDesc
+				cur, next := 0, 2
+				for i := 0; i < k; i++ { // the shared prefix
+					ops = append(ops, conv(cur, pick(r, []string{"Convert", "ConvertS"}), i))
+					cur, next = next, next+1
+					if i == k/2 { // an unrelated derivation in between
+						ops = append(ops, op(cur, "DTag"))
+						next++
+					}
+				}
+				a, b, c := next, next+1, next+2
+				ops = append(ops, conv(cur, "Convert", 8), conv(cur, "ConvertS", 9), conv(cur, "Convert", 14),
+					op(cur, "Msg"), conv(a, "Convert", 10), conv(a, "ConvertS", 11), conv(b, "Convert", 12), conv(c, "Convert", 15),
+					conv(cur, "Convert", 13))
+				emit(out, "fan", roots, fs, ops)
 			}
 		}
 	case "replay":
